@@ -1,11 +1,11 @@
 SPECIFICATION Spec
 CONSTANTS
-  Design = "student_bookkeeping"
-  Kind = "printer"
+  Design = "grader_bookkeeping"
+  Kind = "blocked"
   MaxSteps = 2
   Inject = "base"
   Handback = "per_run"
-  NextRun = "plain"
+  NextRun = "threaded"
   defaultInitValue = defaultInitValue
 INVARIANT ExcIsTimeout
 INVARIANT ExcStable
@@ -13,4 +13,5 @@ INVARIANT OneRuntimeFb
 INVARIANT StacksEmpty
 INVARIANT NoCrash
 INVARIANT NextRunClean
+INVARIANT NextExcNone
 CHECK_DEADLOCK FALSE
